@@ -315,11 +315,11 @@ def reference(prog: Program, sname: str, cls: str, og: bool, flags: dict):
 START_KEY = {0: "zero_data", 1: "identity_data", None: None}
 
 
-def rule_translation(rep: Report, repo: Repo):
+def rule_translation(rep: Report, repo: Repo, which=("main", "nonhermitian", "doc_example")):
     out = compiler_output(repo)
     programs = 0
     checked = 0
-    for pname in ("main", "nonhermitian", "doc_example"):
+    for pname in which:
         data = out.get(pname)
         if data is None:
             raise AnalysisError(RULE, f"program {pname} missing from the compiler query")
